@@ -6,8 +6,10 @@ import (
 	"os"
 	"path/filepath"
 	"sort"
+	"strconv"
 	"strings"
 	"sync"
+	"sync/atomic"
 	"time"
 
 	"golang.org/x/tools/go/packages"
@@ -79,15 +81,35 @@ func overlayFor(pkgRel string, extra ...string) (map[string][]byte, string, erro
 	if err != nil {
 		return nil, "", err
 	}
-	for _, x := range extra {
-		ox, _, err := overlayFor1(x)
-		if err != nil {
-			return nil, "", err
+	// every other package that has harness files is overlaid as well: harnesses
+	// of one package may use exported helpers that live in the overlay of
+	// another (e.g. serveruser.VNewAuthentication)
+	root := filepath.Join(verifRoot, "harness")
+	filepath.Walk(root, func(path string, info os.FileInfo, werr error) error {
+		if werr != nil || !info.IsDir() {
+			return nil
 		}
-		for k, v := range ox {
-			ov[k] = v
+		rel, rerr := filepath.Rel(root, path)
+		if rerr != nil || rel == "." || rel == pkgRel {
+			return nil
 		}
-	}
+		ents, _ := os.ReadDir(path)
+		has := false
+		for _, en := range ents {
+			if strings.HasSuffix(en.Name(), ".go") {
+				has = true
+			}
+		}
+		if !has {
+			return nil
+		}
+		if ox, _, err := overlayFor1(rel); err == nil {
+			for k, v := range ox {
+				ov[k] = v
+			}
+		}
+		return nil
+	})
 	return ov, name, nil
 }
 
@@ -240,6 +262,18 @@ func runHarness(spec *HarnessSpec) (res *HarnessResult) {
 
 var dumpN int
 
+// group queries: size of the initial groups of side obligations and the time
+// allowed before a group is split in halves
+var groupSize = envInt("GOSMT_GROUP", 32)
+var groupTimeout = time.Duration(envInt("GOSMT_GROUPTO", 10)) * time.Second
+
+func envInt(name string, def int) int {
+	if v, err := strconv.Atoi(os.Getenv(name)); err == nil && v > 0 {
+		return v
+	}
+	return def
+}
+
 func (e *Engine) solve(res *HarnessResult) {
 	spec := e.spec
 	timeout := time.Duration(spec.TimeoutS) * time.Second
@@ -386,8 +420,8 @@ func (e *Engine) solve(res *HarnessResult) {
 			return "error: " + err.Error(), nil, false
 		}
 		to := timeout
-		if fresh && to > 8*time.Second {
-			to = 8 * time.Second // group queries are an optimisation: give up early, decide individually
+		if fresh && to > groupTimeout {
+			to = groupTimeout // group queries are an optimisation: give up early, split
 		}
 		if mode == 0 && !fresh {
 			// the facts-free attempt is an optimisation too
@@ -517,6 +551,7 @@ func (e *Engine) solve(res *HarnessResult) {
 	// split in halves (so a single hard or failing obligation is isolated in
 	// O(log n) extra queries) down to individual queries.
 	var groupRun func(obs []*Obligation, depth int)
+	var groupFail, groupOK int32
 	groupRun = func(obs []*Obligation, depth int) {
 		if len(obs) <= 2 {
 			for _, ob := range obs {
@@ -524,10 +559,23 @@ func (e *Engine) solve(res *HarnessResult) {
 			}
 			return
 		}
-		if depth == 0 && len(obs) > 48 {
-			// big harness: groups of 32 consecutive obligations
-			for i := 0; i < len(obs); i += 32 {
-				j := i + 32
+		if depth == 0 && len(obs) > groupSize+groupSize/2 {
+			// big harness: groups of groupSize consecutive obligations.  The
+			// first group is a probe: group formulas carry their whole
+			// assumption prefix (no cone-of-influence reduction), which for
+			// harnesses with thousands of assumptions is slower than deciding
+			// the members one by one - then grouping is abandoned altogether.
+			probeEnd := groupSize
+			groupRun(obs[:probeEnd], 1)
+			wg.Wait()
+			if atomic.LoadInt32(&groupOK) == 0 {
+				for _, ob := range obs[probeEnd:] {
+					single(ob)
+				}
+				return
+			}
+			for i := probeEnd; i < len(obs); i += groupSize {
+				j := i + groupSize
 				if j > len(obs) {
 					j = len(obs)
 				}
@@ -538,13 +586,24 @@ func (e *Engine) solve(res *HarnessResult) {
 		wg.Add(1)
 		go func() {
 			defer wg.Done()
+			if atomic.LoadInt32(&groupFail) >= 3 && atomic.LoadInt32(&groupOK) == 0 {
+				for _, ob := range obs {
+					single(ob)
+				}
+				return
+			}
 			v, _, t := query(0, groupOf(obs), true, false)
 			if v == "unsat" {
+				atomic.AddInt32(&groupOK, 1)
 				for _, ob := range obs {
 					results[index[ob]].Verdict = "unsat"
 					results[index[ob]].TimeS = t / float64(len(obs))
 				}
 				return
+			}
+			atomic.AddInt32(&groupFail, 1)
+			if os.Getenv("GOSMT_VERBOSE") != "" {
+				fmt.Fprintf(os.Stderr, "[group] size=%d depth=%d verdict=%s t=%.1fs -> singles\n", len(obs), depth, v, t)
 			}
 			for _, ob := range obs {
 				single(ob)
